@@ -8,6 +8,7 @@
 package main
 
 import (
+	"encoding/hex"
 	"encoding/json"
 	"errors"
 	"flag"
@@ -15,6 +16,7 @@ import (
 	"os"
 	"runtime"
 	"strings"
+	"unicode/utf8"
 
 	"verifharness/internal/errgen"
 	"verifharness/internal/hx"
@@ -83,6 +85,10 @@ var texts = []string{
 	"%s",
 	"%!",
 	"%d items: %v%",
+	// texts that are not valid UTF-8 (a binary key or payload printed with %s)
+	"key \xff\xfe",
+	"\x80",
+	"caf\xc3(",
 }
 
 // texts used with the separator-less wrap fmt.Errorf("%s%w", t, e): the text stands directly in front of
@@ -91,7 +97,7 @@ var texts = []string{
 var glueTexts = []string{"100%", "%", "pre ", "%s", "\x1bjson", ""}
 
 // number of texts at the front of the alphabet that are used as status / plain leaf messages too
-var markerFree = []int{0, 1, 2, 3, 4, 5, 6, 7, 15, 16, 17, 18, 19, 20, 21, 22}
+var markerFree = []int{0, 1, 2, 3, 4, 5, 6, 7, 15, 16, 17, 18, 19, 20, 21, 22, 23, 24, 25}
 
 // ---- case description (what --from reads back) ----
 
@@ -123,6 +129,42 @@ type Case struct {
 	// Exact: compare every observable with the model, also the ones the property does not name
 	// (harness flag --exact; off in checks/C19.json)
 	Exact bool `json:"exact,omitempty"`
+}
+
+// Texts that are not valid UTF-8 do not survive JSON: in the case files they travel as NUL + "hex:" + hex digits.
+func encText(t string) string {
+	if utf8.ValidString(t) {
+		return t
+	}
+	return "\x00hex:" + hex.EncodeToString([]byte(t))
+}
+
+func decText(t string) string {
+	if strings.HasPrefix(t, "\x00hex:") {
+		if b, err := hex.DecodeString(t[5:]); err == nil {
+			return string(b)
+		}
+	}
+	return t
+}
+
+func mapTexts(c Case, f func(string) string) Case {
+	c.Leaf.T = f(c.Leaf.T)
+	fr := make([]Frame, len(c.Frames))
+	for i, x := range c.Frames {
+		x.T = f(x.T)
+		if x.Ops != nil {
+			ops := make([]Op, len(x.Ops))
+			for j, o := range x.Ops {
+				o.T = f(o.T)
+				ops[j] = o
+			}
+			x.Ops = ops
+		}
+		fr[i] = x
+	}
+	c.Frames = fr
+	return c
 }
 
 // ---- Gallina printing ----
@@ -582,7 +624,8 @@ func main() {
 	}
 	if fl.From != "" {
 		for _, c := range hx.ReadCases[Case](fl.From) {
-			s.Add(c, r.run(c), nontrivial(c))
+			c = mapTexts(c, decText)
+			s.Add(mapTexts(c, encText), r.run(c), nontrivial(c))
 		}
 		s.Close("replayed cases", false)
 		return
@@ -591,7 +634,7 @@ func main() {
 	emit := func(l Leaf, fr []Frame) {
 		id++
 		c := Case{ID: id, Leaf: l, Frames: fr, Exact: *exact}
-		s.Add(c, r.run(c), nontrivial(c))
+		s.Add(mapTexts(c, encText), r.run(c), nontrivial(c))
 	}
 	thorough := fl.Tier == "thorough"
 	maxd := 4
